@@ -21,6 +21,7 @@ from translate.pyfun import translate_module, Untranslatable
 KINDS = ["cmpa", "cfpa", "romcfg", "cmactable", "bca", "fcf", "fcb", "xmcd", "fuses", "memcfg"]
 RULES = {None: 0, "All": 1, "OptionSize": 2, "AcTimingMode": 3}
 LAST = {}
+ERRORS = []
 
 FN_HEADER = """(* GENERATED on every run by tools/regen_c12.py from spsdk/pfr/pfr.py -- do not edit. *)
 From Coq Require Import ZArith NArith Bool.
@@ -201,7 +202,9 @@ def dump_database():
     with concurrent.futures.ThreadPoolExecutor(max_workers=len(GROUPS)) as ex:
         parts = list(ex.map(lambda g: vlib.run_impl("c12_impl.py", {"op": "dump", "kinds": g[0], "part": g[1]}, timeout=1800), GROUPS))
     layouts, inst, index = [], [], {}
+    ERRORS.clear()
     for part in parts:
+        ERRORS.extend(part.get("errors", []))
         remap = {}
         for li, d in enumerate(part["layouts"]):
             key = json.dumps(d, sort_keys=True)
@@ -247,7 +250,7 @@ def regen():
     out.append(";\n".join(f'  ("{i[0]}", "{i[1]}", "{i[2]}", "{i[3]}", {amap[i[4]][1]}%nat)' for i in inst) + "\n]%string.\n")
     vlib.write_if_changed(os.path.join(vlib.COQ, "Gen", "GenAreas.v"), "".join(out))
     LAST.clear()
-    LAST.update({"layouts": layouts, "instances": inst, "amap": amap, "methods": methods,
+    LAST.update({"layouts": layouts, "instances": inst, "amap": amap, "methods": methods, "errors": list(ERRORS),
                  "model_layouts": {k: model_layout(d) for k, d in enumerate(layouts) if d["kind"] != "tz"}})
     return LAST
 
